@@ -192,6 +192,12 @@ def run(tier, seed):
             if real[2:] != model[2:] or len(real) != len(model):
                 ck.disagree('parse_ilog_data differs from model', rp | {'impl': real[:5], 'model': model[:5]})
         iod.check_optimised(ck, opt_calls, 'ILOG samples')
+        # ---- through the shipped parser module with the io_drawer package installed as individual symbolic links into a store
+        try:
+            from io_drawer.drawer_type import DRAWER_TYPES as _DT
+            iod.check_linkfarm(ck, [(73, dt_.user_data_version, c_[1]) for dt_ in _DT for c_ in opt_calls[:4]], 'ILOGs')
+        except ImportError as e:
+            ck.skip('io_drawer.drawer_type unavailable: %r' % e)
         # ---- a header file given by a RELATIVE name (also one that is spelled like a shipped file): it is the file in the current directory
         synth0 = [pth for nm, pth in loader_files if nm.startswith('synth') and os.path.exists(pth)]
         if synth0:
